@@ -250,17 +250,16 @@ def small_enough(a, d, limit=1500):
 
 # ------------------------------------------------------------------------------------------ run
 def read_facts():
-    p = os.path.join(core.COQ, 'Gen', 'C13Facts.v')
-    if not os.path.exists(p): return {}
-    t = open(p).read()
-    f = {}
-    m = re.search(r'copy_untouched := (\w+); copy_diffvals := (\w+)', t)
-    if m: f['copy_untouched'], f['copy_diffvals'] = m.group(1) == 'true', m.group(2) == 'true'
-    m = re.search(r'dso_restore_protected : bool := (\w+)', t)
-    if m: f['dso_restore_protected'] = m.group(1) == 'true'
-    m = re.search(r'apply_copies_base : bool := (\w+)', t)
-    if m: f['apply_copies_base'] = m.group(1) == 'true'
-    return f
+    """source facts of $NBDIME_REPO, computed by the translator itself (not read from the shared Gen/ file, which a
+    concurrent run against another tree may have rewritten)"""
+    p = subprocess.run([os.path.join(core.VERIF, 'tools', 'gen', 'gen_c13facts.py'), '--print'], capture_output=True, text=True,
+                       env=dict(os.environ, NBDIME_REPO=core.REPO))
+    if p.returncode != 0: return {}
+    try: return json.loads(p.stdout.strip().splitlines()[-1])
+    except Exception: return {}
+
+def cq_bool(b):
+    return 'true' if b else 'false'
 
 def run(tier, seed):
     chk = core.Check(PROP, tier, seed)
@@ -314,6 +313,8 @@ def run(tier, seed):
         for c, ob in zip(didx, dres):
             if ob.get('result') is not None and small_enough(c['a'], ob['result']): diffs_from.append((c['a'], ob['result']))
         ptasks, otasks = t1_tasks(chk, tier, diffs_from)
+        cfg_term = '{| copy_untouched := %s; copy_diffvals := %s |}' % (cq_bool(facts.get('copy_untouched', True)), cq_bool(facts.get('copy_diffvals', False)))
+        if not facts: chk.broken_obligation('translator:gen_c13facts', 'source facts unavailable (translator failed closed); model evaluated with the last known configuration')
         pres = core.run_impl(ptasks, shards=14, script=RUNNER, env_extra=env)
         ores = core.run_impl(otasks, shards=14, script=RUNNER, env_extra=env)
         terms = []; origin = []
@@ -321,11 +322,11 @@ def run(tier, seed):
             if 'harness_err' in res: chk.broken_obligation('harness:patch_trace', res); continue
             if 'err' in res and res['err'] not in ('AssertionError', 'KeyError', 'IndexError', 'NBDiffFormatError', 'ValueError', 'TypeError'):
                 chk.broken_obligation('correspondence:patch_s', {'a': t['a'], 'd': t['d'], 'impl': res}); continue
-            terms.append(('(observe_patch patch_cfg 40 %s %s)' % (cq_json(t['a']), cq_diff(t['d'])), patch_expectation(res)))
+            terms.append(('(observe_patch %s 40 %s %s)' % (cfg_term, cq_json(t['a']), cq_diff(t['d'])), patch_expectation(res)))
             origin.append(('patch_s', t, res))
             if res.get('unchanged') != [True, True]:
                 chk.violation('input-modified:patch:' + ('obj' if not res['unchanged'][0] else 'diff'), {'call': 'patch', 'a': t['a'], 'd': t['d']}, res)
-        prot = 'dso_restore_protected'
+        prot = cq_bool(facts.get('dso_restore_protected', False))
         for t, res in zip(otasks, ores):
             if 'harness_err' in res: chk.broken_obligation('harness:outputs', res); continue
             terms.append(('(observe_dso %s %s 40 %s %s)' % (prot, cq_fault(t['fault']), cq_json(t['a']), cq_json(t['b'])), dso_expectation(t, res)))
